@@ -59,9 +59,20 @@ Theorem C19_negative_discriminant_refuted :
                        {| v_cfg := None; v_name := "Vb"; v_value := EVDefault |}] |} false))]]) = false.
 Proof. vm_compute. reflexivity. Qed.
 
+(* D17: on an `int` field as wide as its carrier, a variant number >= 2^(w-1) passes the range test (which
+   compares with the UNSIGNED maximum 2^w - 1) but does not fit the enum's signed repr — "literal out of
+   range for i16" (deny-by-default lint). *)
+Theorem C19_signed_discriminant_refuted :
+  wf_output "Dev" (dev IU8 [ex_reg "Ra" 0 RW None
+    [{| f_cfg := None; f_name := "fa"; f_access := RW; f_base := BInt; f_start := 0; f_end := 8;
+        f_conv := Some (ConvEnum {| e_cfg := None; e_name := "En"; e_style := None;
+                     e_variants := [{| v_cfg := None; v_name := "Va"; v_value := EVUnspec |};
+                                    {| v_cfg := None; v_name := "Vb"; v_value := EVSpec 255 |}] |} true) |}]]) = false.
+Proof. vm_compute. reflexivity. Qed.
+
 (* Strongest true statement: outside those classes — no block refs, every field readable, no negative
    stride on a readable register under an unsigned address type, enum numbers pairwise distinct and
-   non-negative on uint/bool fields — and with type names unique per namespace (driver name, blocks and
+   representable in the enum's repr type (non-negative below 2^carrier on uint/bool fields, within the signed range on int fields) — and with type names unique per namespace (driver name, blocks and
    generated enums share the top level; field sets live in `mod field_sets`), the obligations hold; in
    particular the block structs emitted are exactly the declared blocks, once each. *)
 Theorem C19_wf_output_partial : forall driver d,
@@ -91,5 +102,6 @@ Print Assumptions C19_negative_stride_refuted.
 Print Assumptions C19_block_ref_refuted.
 Print Assumptions C19_duplicate_discriminant_refuted.
 Print Assumptions C19_negative_discriminant_refuted.
+Print Assumptions C19_signed_discriminant_refuted.
 Print Assumptions C19_wf_output_partial.
 Print Assumptions C19_block_structs_are_declared_blocks.
